@@ -192,7 +192,7 @@ def tlc(spec, cfg_text, env=None, workers=1, timeout=600, work=None, extra=(), h
         r["distinct"] = int(m.group(2)) if m else 0
         m = re.search(r"depth of the complete state graph search is (\d+)", out)
         r["depth"] = int(m.group(1)) if m else 0
-        m = re.search(r"Invariant (\S+) is violated", out)
+        m = re.search(r"Invariant (\S+) is violated", out) or re.search(r"The invariant of (\S+) is equal to FALSE", out)
         r["violated"] = m.group(1) if m else None
         if not m:
             m = re.search(r"Action property (\S+) is violated|Temporal properties were violated", out)
